@@ -33,7 +33,7 @@ class Module:
         """symbols of the generated package itself (for `"."` references): unlabelled copies of the fixture symbols"""
         self.write(name + "/zz_local.go", self.thin.replace("PKGNAME", pkgname).replace("PKGID", ""))
 
-    def gen_pkg(self, name, yaml_files, flags=(), env=None, pkgname=None):
+    def gen_pkg(self, name, yaml_files, flags=(), env=None, pkgname=None, over_previous_output=False):
         """run the CLI on the yaml files, writing <name>/gen.go; returns (exit, stdout)"""
         d = os.path.join(self.root, name)
         os.makedirs(os.path.join(d, "cfg"), exist_ok=True)
@@ -44,7 +44,10 @@ class Module:
             args += ["-i", fn]
         out = os.path.join(d, "gen_stub.go" if "--stub" in flags else "gen.go")
         # a (longer) previous generation is already there: the tool must replace it
-        open(out, "w").write("// previous generation of this file\n" * 4000)
+        if over_previous_output:
+            pass        # whatever is at the output path now (nothing, or what an earlier call generated) stays there
+        else:
+            open(out, "w").write("// previous generation of this file\n" * 4000)
         args += ["-o", out] + list(flags)
         rc, so, se = core.cli(args, cwd=d, env=env)
         if rc != 0 and os.path.exists(out):
